@@ -318,6 +318,15 @@ def record_problems(o, P):
                             probs.append("%s %s ion determinant %r, ion charge %r" % (cname, g.label, d.value, pq))
                     elif q * pq > 0 and d.value * q > 1e-12:
                         probs.append("%s %s like-charge Coulomb determinant %r is stabilising" % (cname, g.label, d.value))
+                # the same rules read off the reported row (the label printed next to the value), as a reader of the file would
+                named = by_label.get(d.label, [])
+                lq = {x.charge for x in named if getattr(x, "charge", None)}
+                if len(lq) == 1 and named and all(getattr(x, "type", "") != "ION" for x in named) and q:
+                    pql = lq.pop()
+                    if q * pql < 0 and d.value * q < -1e-12:
+                        probs.append("%s %s Coulomb determinant %r attributed to the oppositely charged %s is destabilising" % (cname, g.label, d.value, d.label))
+                    if q * pql > 0 and d.value * q > 1e-12:
+                        probs.append("%s %s Coulomb determinant %r attributed to the like-charged %s is stabilising" % (cname, g.label, d.value, d.label))
                     elif q * pq < 0 and d.value * q < -1e-12:
                         probs.append("%s %s opposite-charge Coulomb determinant %r is destabilising" % (cname, g.label, d.value))
                 # equal and opposite for acid-base pairs of reported protein side chains
@@ -342,6 +351,8 @@ def run(ctx):
     big = dict(pdbgen.test_files(["3SGB-subset" if ctx.quick() else "3SGB"]))
     for n, t in big.items():
         inputs.append((n + "-altloc", pdbgen.text(pdbgen.altloc_atoms(rnd, pdbgen.lines_of(t), rnd.randint(1, 3)))))
+    # partners that share a printed label (insertion-coded twins of one residue type), strongly coupled to a third group
+    inputs.append(("1FTJ-LYS210-210A", pdbgen.text(pdbgen.salt_bridge_twins())))
     lib = pdbgen.library()
     hets = [it for k in sorted(lib) if k[1] == "het" for it in lib[k]]
     for i in range(6 if ctx.quick() else 60):
